@@ -425,3 +425,19 @@ package keystore
 //@   at call MutableKeyStore.OpenKeyRingRW : assert fixed-ring: arg[0] == auditLogSymmetricKeyPath
 //@   at call ServerKeyStore.addCurrentSymmetricKey : assert opened-ring: arg[0] == ret(MutableKeyStore.OpenKeyRingRW)[0] && ret(MutableKeyStore.OpenKeyRingRW)[1] == nil && sameslice(arg[1], auditLogKey)
 //@   ensures failure-propagates: (ret(MutableKeyStore.OpenKeyRingRW)[1] != nil ==> err != nil) && (called(ServerKeyStore.addCurrentSymmetricKey) && ret(ServerKeyStore.addCurrentSymmetricKey)[0] != nil ==> err != nil)
+
+// ---- listing of rotated keys, keystore v2 (C06): the j-th listed key (from 0) is shown with index j+2, and only keys that
+// are not destroyed are listed, in ascending seqnum order starting from seqnum 1 - the enumeration (active seqnums in
+// ascending order, numbered from 2) that destroyRingRotatedKeyByIndex resolves an index with.
+//@ func (s *ServerKeyStore) listRotatedRings(path string, purpose keystore.KeyPurpose, clientID string) (out []keystore.KeyDescription, err error)
+//@   props C06
+//@   noinline *
+//@   loop 0 invariant position-plus-two: keyIdx == len(result) + 1 && 1 <= i
+//@          invariant listed-index-is-position-plus-two: forall(j, 0, len(result), result[j].Index == j + 2 && result[j].State == keystore.StateRotated)
+//@          step only-active-keys-listed: len(result) != len(prev(result)) ==> len(result) == len(prev(result)) + 1 && itercalled(KeyRing.State) && ret(KeyRing.State)[0] != api.KeyDestroyed && ret(KeyRing.State)[1] == nil && argof(KeyRing.State)[0] == prev(i)
+//@          step ascending-seqnums: i == prev(i) + 1
+//@          step destroyed-skipped: itercalled(KeyRing.State) && ret(KeyRing.State)[0] == api.KeyDestroyed ==> len(result) == len(prev(result))
+//@   at call KeyRing.State : assert recv == ret(MutableKeyStore.OpenKeyRing)[0] && arg[0] == i
+//@   at call MutableKeyStore.OpenKeyRing : assert arg[0] == path
+//@   ensures listed-index-is-position-plus-two: err == nil ==> forall(j, 0, len(out), out[j].Index == j + 2)
+//@   ensures nothing-on-error: err != nil ==> out == nil
